@@ -632,30 +632,46 @@ def rule_o9(ctx):
     for b, t in body.calls():
         if mir.last_seg(mir.callee(t) or "") != "push_xor" or body.blocks[b]["cleanup"]:
             continue
-        keys = []
+        def classify(o):
+            c = "?"
+            for (r, p) in body.trace_operand(o, through={}):
+                if r == ("arg", 2) and not p:
+                    c = "x"
+                elif r == ("arg", 3) and not p:
+                    c = "y"
+                elif r[0] == "call" and "as Xor" in p:
+                    c = ("xor", gate_owner(r[1]), p[p.index("as Xor") + 1])
+            return c
+        keys = []       # (variant, [classified operand, ..])
         for a in t["args"][1:3]:
             for (r, p) in body.trace_operand(a):
                 if r[0] == "call" and mir.last_seg(r[2] or "") == "get_cached":
                     for (r2, p2) in body.trace_operand(body.term(r[1])["args"][1], through={}):
                         if r2[0] == "agg":
-                            keys.append(body.blocks[r2[1]]["stmts"][r2[2]])
+                            st = body.blocks[r2[1]]["stmts"][r2[2]]
+                            keys.append((st["rv"]["variant"], [classify(o) for o in st["rv"]["ops"]]))
+                elif r[0] == "call" and ctx.has_fn(str(r[2])) and str(r[2]).startswith("circuit::") and p and p[-1].isdigit():
+                    # a helper of the builder that does the look-ups: read them off its body, in terms of its parameters
+                    hb = ctx.body(str(r[2]))
+                    looked = []
+                    for hbb, ht in hb.calls():
+                        if mir.last_seg(mir.callee(ht) or "") == "get_cached":
+                            for (r2, p2) in hb.trace_operand(ht["args"][1], through={}):
+                                if r2[0] == "agg":
+                                    hst = hb.blocks[r2[1]]["stmts"][r2[2]]
+                                    params = []
+                                    for o in hst["rv"]["ops"]:
+                                        ps = [rr[1] for (rr, pp) in hb.trace_operand(o, through={}) if rr[0] == "arg" and not pp]
+                                        params.append(ps[0] if len(ps) == 1 else None)
+                                    looked.append((hst["rv"]["variant"], params))
+                    k = int(p[-1])
+                    if k < len(looked) and all(x is not None for x in looked[k][1]):
+                        call = body.term(r[1])
+                        keys.append((looked[k][0], [classify(call["args"][i - 1]) for i in looked[k][1]]))
         if len(keys) != 2:
             continue
         n += 1
-        desc = []
-        for st in keys:
-            parts = []
-            for o in st["rv"]["ops"]:
-                c = "?"
-                for (r, p) in body.trace_operand(o, through={}):
-                    if r == ("arg", 2) and not p:
-                        c = "x"
-                    elif r == ("arg", 3) and not p:
-                        c = "y"
-                    elif r[0] == "call" and "as Xor" in p:
-                        c = ("xor", gate_owner(r[1]), p[p.index("as Xor") + 1])
-                parts.append(c)
-            desc.append((st["rv"]["variant"], parts))
+        desc = keys
         ok = all(v == "And" for v, _ in desc)
         inputs = set()
         for v, parts in desc:
